@@ -772,7 +772,7 @@ theorem convertToTime_val (ty : TTy) (v : TVal) (x : Int) (h : convertToTime ty 
   | some res =>
     simp only [hr] at h
     refine ⟨res, rfl, ?_⟩
-    by_cases hz : res = zeroTime
+    by_cases hz : res = TimeCmp.zeroTime
     · rw [if_pos hz] at h
       rw [hz, roundTo_of_multiple _ _ (unit_pos ty) (zeroTime_unit ty)]
       exact (Option.some.inj h).symm
@@ -889,16 +889,16 @@ theorem dt_str_compare_exact (f g : Fields) (hf : validStr f = true) (hg : valid
       omega)
     have e0 : dfc 0 1 1 = -719528 := by decide
     have e1 : dfc 9999 12 31 = 2932896 := by decide
-    have ez : zeroTime = -62169984000000000000 := by decide
-    have em : maxTime = 253402300799999999000 := by decide
+    have ez : TimeCmp.zeroTime = -62169984000000000000 := by decide
+    have em : TimeCmp.maxTime = 253402300799999999000 := by decide
     obtain ⟨_, _, _, _, a5, a6, a7, a8, a9, a10, a11, a12⟩ := vh
     have hmul : goDate h % 1000 = 0 := by
       rw [eh]; simp only [nsDay, nsHour, nsMin, nsSec]; omega
     have hround : roundTo (TTy.datetime 6).unit (goDate h) = goDate h :=
       roundTo_of_multiple _ _ (unit_pos _) (by simpa [TTy.unit, TTy.precision] using hmul)
-    have hge : zeroTime < goDate h := by
+    have hge : TimeCmp.zeroTime < goDate h := by
       rw [ez, eh]; simp only [nsDay, nsHour, nsMin, nsSec] at *; omega
-    have hle : goDate h ≤ maxTime := by
+    have hle : goDate h ≤ TimeCmp.maxTime := by
       rw [em, eh]; simp only [nsDay, nsHour, nsMin, nsSec] at *; omega
     simp only [convertToTime, convertRaw, hv, if_true, TTy.isDate, Bool.false_eq_true, if_false]
     rw [if_neg (by omega), hround]
